@@ -78,6 +78,7 @@ let () =
               h := ((!h * 1000003) lxor (int_of_n l)) land 0xFFFFFFFFFF;
               h := ((!h * 1000003) lxor (int_of_n r)) land 0xFFFFFFFFFF end) pairs;
         emit (Printf.sprintf "audio %d %d bad=0" n !h) end);
+  register "gb.audiobits" (fun a -> let (aud, _) = flags (ai a 1) in emit (if aud then "audiobits 0" else "audiobits none"));
   register "gb.set" (fun a ->
       let (c, s) = get (ai a 1) in
       put (ai a 1) ({ c with ra = an a 2; rb = an a 3; rc = an a 4; rd = an a 5; re = an a 6; rf = an a 7; rh = an a 8;
